@@ -39,9 +39,10 @@ func TestC10NeverWedges(t *testing.T) {
 		case "resending":
 			h.pub(1, false)
 			h.pub(2, false)
+			resendOff := rapid.IntRange(0, 12).Draw(rt, "resendOff")
 			h.WithLock(func() {
 				h.NextConnOpts = func(c *sim.Conn) {
-					c.ArmWriteLocked(sim.WFault{Off: connectLen + rapid.IntRange(0, 12).Draw(rt, "resendOff"), Kind: sim.WPark})
+					c.ArmWriteLocked(sim.WFault{Off: connectLen + resendOff, Kind: sim.WPark})
 					h.NextConnOpts = nil
 				}
 			})
@@ -137,7 +138,7 @@ func TestC10NeverWedges(t *testing.T) {
 				c.Break(true)
 			}
 		case "mid-packet-stall":
-			if c != nil && c.State.Accepted {
+			if c != nil && c.Accepted() {
 				// half a packet, then silence until PauseTimeout passes
 				c.Send([]byte{0x32, 0x10, 0x00})
 			}
@@ -197,7 +198,7 @@ func TestC10NeverWedges(t *testing.T) {
 		rw := time.Duration(0)
 		online := func() bool {
 			c := h.Current()
-			return c != nil && c.State.Accepted && h.ReaderWaiting() && isClosedChan(h.Client.Online())
+			return c != nil && c.Accepted() && h.ReaderWaiting() && isClosedChan(h.Client.Online())
 		}
 		scripted := false
 		for round := 0; ; round++ {
@@ -213,7 +214,7 @@ func TestC10NeverWedges(t *testing.T) {
 				for _, c := range h.AllConns() {
 					for c.ReleaseWrite() {
 					}
-					if c.Alive() && !c.State.Accepted {
+					if c.AliveNow() && !c.Accepted() {
 						c.Break(false) // a held handshake never completes
 					}
 				}
@@ -228,7 +229,7 @@ func TestC10NeverWedges(t *testing.T) {
 			}
 			if h.App.InCall() {
 				if h.ReaderWaiting() {
-					if cur := h.Current(); cur != nil && cur.State.Accepted && round >= 1 {
+					if cur := h.Current(); cur != nil && cur.Accepted() && round >= 1 {
 						// waits for input on a live, accepted connection; make
 						// sure that is where things come to rest
 						if !h.PollQuiet(quiet, func() bool { return !h.ReaderWaiting() || h.Current() != cur }) {
@@ -309,7 +310,7 @@ func TestC10NeverWedges(t *testing.T) {
 		ok := false
 		for attempt := 0; attempt < 4 && !ok; attempt++ {
 			for round := 0; round < 10; round++ {
-				if cur := h.Current(); cur != nil && cur.State.Accepted && h.ReaderWaiting() {
+				if cur := h.Current(); cur != nil && cur.Accepted() && h.ReaderWaiting() {
 					break
 				}
 				h.App.Step()
